@@ -491,6 +491,67 @@ pub fn main(args: &Args) -> std::io::Result<()> {
         let k = 7000 + i;
         run_poly(&mut cx, &spec, k, "rounded_junction", i % 100 == 0 || (args.thorough() && i % 50 == 0));
     }
+    // pending merge vertices: a shape with one to three notches cut in from the top (the tip of each notch is a merge
+    // vertex of the sweep: two edges end there with the interior on both sides, and the merge stays unresolved until the
+    // sweep reaches a vertex between its two neighbours) while, further down, another sub-path crosses itself or the
+    // outline - the active edges are then re-sorted with merge edges among them.  Lattice coordinates, so the check
+    // is exact; a transposed copy exercises the horizontal sweep the same way.
+    let n_merge = if args.thorough() { 30000 } else { 4000 };
+    for i in 0..n_merge {
+        let mut r = Rng::new(cx.rng.next_u64());
+        let wd = 12 + r.below(8) as i64;
+        let ht = 10 + r.below(8) as i64;
+        let notches = 1 + r.below(3) as i64;
+        let mut outline: Vec<(i64, i64)> = vec![(0, 0)];
+        let step = wd / (notches + 1);
+        let mut tips = Vec::new();
+        for j in 0..notches {
+            let cxn = step * (j + 1);
+            let half = 1 + r.below(2) as i64;
+            let depth = 1 + r.below(4) as i64;
+            let tipx = cxn + r.range(-1, 2);
+            outline.push((cxn - half, 0));
+            outline.push((tipx, depth));
+            outline.push((cxn + half, 0));
+            tips.push((tipx, depth));
+        }
+        outline.push((wd, 0));
+        outline.push((wd + r.range(-1, 2), ht));
+        outline.push((r.range(-1, 2), ht));
+        // lower down: bow-ties / crossing quadrilaterals, each somewhere below the deepest notch tip
+        let top = tips.iter().map(|t| t.1).max().unwrap() + 1;
+        let mut polys: Vec<Vec<(i64, i64)>> = vec![outline];
+        for _ in 0..1 + r.below(3) {
+            let x0 = r.range(0, wd - 3);
+            let y0 = r.range(top, ht - 2);
+            let (w2, h2) = (2 + r.below(4) as i64, 1 + r.below((ht - y0).max(2) as u64 - 1) as i64);
+            let q = match r.below(3) {
+                0 => vec![(x0, y0), (x0 + w2, y0 + h2), (x0 + w2, y0), (x0, y0 + h2)],                 // bow-tie
+                1 => vec![(x0, y0), (x0 + w2, y0 + h2), (x0, y0 + h2), (x0 + w2, y0)],                 // the other bow-tie
+                _ => vec![(x0 - 2, y0), (x0 + w2 + 2, y0 + h2), (x0 + w2, y0 - 1), (x0 + 1, y0 + h2 + 1)], // may cross the outline
+            };
+            polys.push(q);
+        }
+        if r.chance(1, 2) {
+            polys.reverse();
+        }
+        let transposed = r.chance(1, 2);
+        let rev = r.chance(1, 2);
+        let lines: Vec<Vec<(f32, f32)>> = polys
+            .iter()
+            .map(|p| {
+                let mut v: Vec<(f32, f32)> = p.iter().map(|q| if transposed { (q.1 as f32, q.0 as f32) } else { (q.0 as f32, q.1 as f32) }).collect();
+                if rev {
+                    v.reverse();
+                }
+                v
+            })
+            .collect();
+        let closed = vec![true; lines.len()];
+        let spec = PathSpec::from_polylines(&lines, &closed);
+        let k = 9000 + i;
+        run_poly(&mut cx, &spec, k, "pending_merge", i % 100 == 0 || (args.thorough() && i % 60 == 0));
+    }
     // simple y-monotone polygons whose two chains meander over the whole width (long pending chains in the
     // monotone tessellator): right chain downwards, then left chain upwards; a transposed copy for the
     // horizontal sweep
